@@ -8,6 +8,8 @@ pub mod c05;
 pub mod c06;
 pub mod c07;
 pub mod c12;
+pub mod c20;
+pub mod eqfam;
 pub mod jcsfam;
 pub mod parsefam;
 pub mod printfam;
@@ -26,6 +28,9 @@ pub fn run(id: &str, cfg: &Config) -> i32 {
 		"C09" => jcsfam::run_c09(cfg),
 		"C10" => jcsfam::run_c10(cfg),
 		"C12" => c12::run(cfg),
+		"C14" => eqfam::run_c14(cfg),
+		"C15" => eqfam::run_c15(cfg),
+		"C20" => c20::run(cfg),
 		_ => {
 			println!("INCONCLUSIVE property={} no such check", id);
 			2
@@ -67,6 +72,8 @@ pub fn replay(id: &str, cfg: &Config, path: &Path) -> i32 {
 		("C06", "history") => c06::replay_case(&case),
 		("C04" | "C08" | "C13", _) => printfam::replay_case(id, &case),
 		("C09" | "C10", _) => jcsfam::replay_case(id, &case),
+		("C14" | "C15", _) => eqfam::replay_case(id, &case),
+		("C20", _) => Some(if c20::run(cfg) == 0 { vec![] } else { vec!["C20 enumeration fails".to_string()] }),
 		_ => None,
 	};
 	match fired {
